@@ -116,11 +116,20 @@ def run(ck, facts, tier):
                 ck.ok(R, "visit_domain_goal:FromEnv::Ty")
             else:
                 ck.violation(R, "visit_domain_goal:FromEnv::Ty", vd.where(y["ln"]), "a FromEnv(Ty) hypothesis must elaborate the type")
-        guard = [n for n in walk(vd.thir) if n.get("k") == "if" and n["cond"].get("k") == "letexpr" and n["cond"]["pat"].get("v") == "FromEnv"]
-        if guard:
+        # only FromEnv hypotheses are elaborated: in the match / if-let on DomainGoal every other variant does nothing
+        dm = enum_matches(vd.thir, "chalk_ir::DomainGoal")
+        okg = len(dm) == 1
+        if okg:
+            for v in facts.variants("chalk_ir::DomainGoal"):
+                arms = select_arms(dm[0], V(v))
+                body_ = dm[0]["arms"][arms[0][0]]["body"] if arms else None
+                work = body_ is not None and (has_call(body_, "to_program_clauses") or has_call(body_, "visit_with"))
+                if (v == "FromEnv") != bool(work):
+                    okg = False
+        if okg:
             ck.ok(R, "visit_domain_goal:only-FromEnv")
         else:
-            ck.violation(R, "visit_domain_goal:only-FromEnv", vd.where(), "only FromEnv hypotheses are elaborated")
+            ck.violation(R, "visit_domain_goal:only-FromEnv", vd.where(), "exactly the FromEnv hypotheses are elaborated")
     tkey = "<chalk_solve::rust_ir::TraitDatum as chalk_solve::clauses::program_clauses::ToProgramClauses>::to_program_clauses"
     tb = need_body(ck, facts, R, tkey)
     if tb:
@@ -151,17 +160,22 @@ def run(ck, facts, tier):
         el = cfg.call_blocks("elaborate_env_clauses")
         final = cfg.call_blocks("ProgramClauses::from_iter")
         ok1 = bool(exits) and bool(final) and all(cfg.must_pass_edges(f, exits) for f in final) and bool(el)
-        ext = [c for c in calls(th, "extend") if "last_round" in expr_vars(c["args"][0])]
-        ok2 = bool(ext) and has_call(ext[0], "Iterator::filter") and has_call(ext[0], "HashSet::insert") and "closure" in expr_vars(ext[0]) and "next_round" in expr_vars(ext[0])
+        # names are not assumed: C = the set whose `insert` decides membership, the next round = the receiver of that `extend`
+        ext = [c for c in calls(th, "extend") if has_call(c, "HashSet::insert")]
+        ok2 = bool(ext) and has_call(ext[0], "Iterator::filter")
+        cname = None
         if ok2:
-            # the only thing allowed to keep a clause out of the next round is `closure.insert(clause)` returning false
+            # the only thing allowed to keep a clause out of the next round is `C.insert(clause)` returning false
             DROPPERS = {"filter", "filter_map", "take", "skip", "take_while", "skip_while", "step_by", "find", "nth", "last", "dedup", "unique", "flat_map"}
             ads = [str(c.get("fn", "")).split("::")[-1] for c in calls(ext[0]) if str(c.get("fn", "")).split("::")[-1] in DROPPERS]
             ins = [c for c in calls(ext[0], "HashSet::insert")]
-            ok2 = ads == ["filter"] and len(ins) == 1 and "closure" in expr_vars(ins[0]["args"][0])
+            cname = var_name(ins[0]["args"][0]) if len(ins) == 1 else None
+            ok2 = ads == ["filter"] and cname is not None
         res = [c for c in calls(th, "ProgramClauses::from_iter")]
-        ok3 = bool(res) and "closure" in expr_vars(res[0])
-        seed = any(st.get("k") == "let" and st["pat"].get("n") == "closure" and "last_round" in expr_vars(st["init"]) for st in walk(th))
+        ok3 = bool(res) and cname is not None and cname in expr_vars(res[0])
+        elc = [c for c in calls(th, "elaborate_env_clauses")]
+        round_vars = set().union(*[expr_vars(a) for c in elc for a in c["args"]]) if elc else set()
+        seed = any(st.get("k") == "let" and st["pat"].get("n") == cname and (expr_vars(st["init"]) & round_vars) for st in walk(th))
         if ok1 and ok2 and ok3 and seed:
             ck.ok(R, "program_clauses_for_env:worklist-closure")
         else:
